@@ -21,7 +21,10 @@ func pwFragments(pw string) []string {
 }
 
 var c15Passwords = []string{"admin", "my secret", "pa55 w0rd with spaces", "it's", "say \"hi\" now", "a=b=c", "semi;colon;here", "back\\slash", "tab\there", "new\nline", "  leading", "trailing  ",
-	"with password inner", "password for x = y", "'quoted'", "--comment", "/*block*/", "üñíçødé", "日本語パスワード", "x", "", "[REDACTED]", "a'b\"c\\d=e;f g"}
+	"with password inner", "password for x = y", "'quoted'", "--comment", "/*block*/", "üñíçødé", "日本語パスワード", "x", "", "[REDACTED]", "a'b\"c\\d=e;f g",
+	// passwords that spell a password clause themselves, with the quote that lets a nested match run out of the literal
+	"a password for x = 'b", "set password for \"y z\" = 'zz' tail", "password for u=\"q", "with password 'inner", "x with password\"q\" y",
+	"PASSWORD FOR a = 'b' WITH PASSWORD 'c'", "password\tfor\tx\t=\t'b"}
 var c15Users = []string{"admin", "u", "my user", "a=b", "with password", "we\"ird", "üser", "select", "x.y", "pass word for"}
 
 type c15Layout struct {
@@ -61,11 +64,16 @@ func c15One(o *out, l c15Layout, user, pw string) {
 	o.addCaseVM("(22 "+textSexp(text)+")", textSexp(san), "Sanitize "+text, asciiNoFloat(text))
 	rp := map[string]interface{}{"op": "sanitize", "text": text, "password": pw, "layout": l.name}
 	// printed statements carry no password
+	// (a fragment that is also printed for a different password - a keyword, the user name - is not a leak)
+	other := ""
+	if q2, err2 := influxql.ParseQuery(l.build(user, influxql.QuoteString("q9"))); err2 == nil {
+		other = q2.String()
+	}
 	for _, st := range q.Statements {
 		o.checked()
 		s := st.String()
 		for _, f := range pwFragments(pw) {
-			if strings.Contains(s, f) && !strings.Contains(strings.Replace(text, pwlit, "", -1), f) && !strings.Contains("[REDACTED]", f) {
+			if strings.Contains(s, f) && !strings.Contains(other, f) && !strings.Contains(strings.Replace(text, pwlit, "", -1), f) && !strings.Contains("[REDACTED]", f) {
 				o.fail("", fmt.Sprintf("String() of %q contains the password fragment %q: %s", text, f, s), rp)
 			}
 		}
@@ -113,6 +121,15 @@ func propC15(o *out, r *rng, thorough bool) {
 			u = append(u, pick(r, alpha))
 		}
 		c15One(o, pick(r, c15Layouts), string(u), string(pw))
+	}
+	// passwords made of the words of the clauses themselves
+	words := []string{"password", "PASSWORD", "for", "with", "WITH", "set", "=", " ", " ", "'", "\"", "\\", "x", "y z", ";", "\t"}
+	for i := 0; i < n; i++ {
+		var pw strings.Builder
+		for j := 0; j < 2+r.intn(9); j++ {
+			pw.WriteString(pick(r, words))
+		}
+		c15One(o, pick(r, c15Layouts), pick(r, []string{"u", "admin", "a=b"}), pw.String())
 	}
 	// text without password clauses is returned unchanged
 	for _, s := range loadCorpus("statements.json") {
